@@ -76,6 +76,18 @@ static void one(const std::vector<bgen::Elem> &alph, const Stored &st, const std
         size_t ml = rtosc_message_length(g_buf, len + extra);
         if(ml != len) vp::violation(std::string("message-length|bundle|") + (extra ? "slack|" : "exact|") + shape, cid, "rtosc_message_length=" + std::to_string(ml) + " for a bundle of " + std::to_string(len) + " bytes");
     }
+    // the same bundle lying in a two-segment ring (as a wrapped ring buffer hands it out): split at every offset into two separately
+    // allocated segments, the second followed by two zero words; the ring length function must report the bundle's length
+    if(len <= 600) {
+        static std::vector<char> s0, s1;
+        for(size_t k = 0; k <= len; ++k) {
+            s0.assign(g_buf, g_buf + k); s1.assign(g_buf + k, g_buf + len); s1.insert(s1.end(), 8, '\0');
+            ring_t ring[2] = {{s0.data(), s0.size()}, {s1.data(), s1.size()}};
+            size_t rl = rtosc_message_ring_length(ring);
+            vp::transition();
+            if(rl != len) { vp::violation("ring-length|rtosc_message_ring_length|" + std::string(k % 4 ? "split-inside-a-word," : "split-at-word-boundary,") + shape, cid, "bundle of " + std::to_string(len) + " bytes split at offset " + std::to_string(k) + ": reports " + std::to_string(rl)); break; }
+        }
+    }
     size_t off = 16;
     for(size_t i = 0; i < seq.size(); ++i) {
         vp::transition(2);
@@ -112,6 +124,7 @@ int main(int argc, char **argv)
     vp::bound("nesting_depth", "0.." + std::to_string(maxdepth));
     vp::bound("sequences", "all of length 0.." + std::to_string(T ? 5 : 3) + " over the alphabet (" + std::to_string(n_main) + ") + all of length " + std::to_string(T ? 5 : 4) + "..8 over {m8, one-element nested bundle}");
     vp::bound("timetags", "7 (0,1,2^32-1,2^32,2^63,2^64-1,0x0102030405060708): all for sequences of length <= 2, rotating beyond");
+    vp::bound("ring_splits", "every bundle of up to 600 bytes also as a two-segment ring split at every offset 0..len (segments in separate allocations)");
     vp::bound("layouts", "element followed by zero bytes / by bytes that look like one more size-prefixed element");
     for(auto &e : alph) vp::sample(e.name + " (" + std::to_string(e.bytes.size()) + " bytes)", 12);
 
